@@ -277,6 +277,14 @@ def run_wsgi(app, environ, fail_write_at=None, max_chunks=100000):
                 res.closed_iterable += 1
             except Exception as ex:  # noqa
                 res.problems.append('iterable.close() raised %r' % (ex,))
+    for status, headers, _ in res.start_calls[-1:]:
+        try:
+            now = list(headers)
+        except TypeError:
+            now = None
+        if now is not None and now != res.headers:
+            res.problems.append('header list was changed by the app after start_response(): %.200r -> %.200r'
+                                % (res.headers, now))
     if len(res.start_calls) == 0:
         res.problems.append('start_response never called')
     res.body = b''.join(res.chunks)
